@@ -54,7 +54,7 @@ func H_C12_reentry() {
 	b.RegisterNode("of", &rNode{typ: NodeTypeFormatter})
 	b.RegisterPipeline(Pipeline{PipelineID: "p", EventType: "t", NodeIDs: []NodeID{"f", "s"}})
 	b.RegisterPipeline(Pipeline{PipelineID: "o", EventType: "other", NodeIDs: []NodeID{"of", "s"}})
-	op := symLen(0, 11)
+	op := symLen(0, 13)
 	verifNoteInt("reenter-from", where)
 	verifNoteInt("op", op)
 	// with concurrent writers waiting on the lock (native replay only; symbolically the lock contract flags it)
@@ -85,6 +85,14 @@ func H_C12_reentry() {
 		b.Reopen(ctx)
 	case 11:
 		b.RemoveNode(ctx, "f")
+	case 12:
+		// the node is registered but no longer in use, then its id is registered again
+		b.RemovePipeline("t", "p")
+		b.RegisterNode("f", &rNode{typ: NodeTypeFormatter})
+	case 13:
+		b.RemovePipeline("t", "p")
+		b.RegisterNode("f", f, WithNodeRegistrationPolicy(DenyOverwrite))
+		b.RegisterNode("f", f)
 	}
 	verifAssert(verifNoLocksHeld(), "C12.lock-released-after-call")
 	// the broker is still usable afterwards
